@@ -109,6 +109,8 @@ pub fn compute_corpus() -> Vec<Opts> {
     out.push(h);
     // short names of two and three bytes (clusters are cut at character boundaries)
     out.push(Opts::new(P::Seq(vec![P::Switch(Names::short('é')), P::Switch(Names::short('€')), P::Switch(Names::short('v')), P::arg(Names::short('ß'), Ty::Os).opt()])));
+    // a typed required argument in front of a command: `-l x build --help`, `build --help`
+    out.push(Opts::new(P::Seq(vec![P::arg(Names::short('l'), Ty::U32), P::cmd("build", Opts::new(P::Seq(vec![P::pos(Ty::Os)])))])));
     // one short name declared as a flag at the top and as an argument inside a command
     out.push(Opts::new(P::Seq(vec![P::Switch(Names::short('v')), P::Switch(Names::short('f')), P::cmd("put", Opts::new(P::Seq(vec![P::arg(Names::short('f'), Ty::Os).opt()]))).opt()])));
     // chained adjacent commands: a command that fails on a foreign item is run again on a
@@ -308,6 +310,27 @@ fn check_case(unit: &Value, id: usize, o: &Opts, level: Option<&crate::conv::Lev
             ctx.count("classes-confirmed-by-the-reference-scanner");
         }
     }
+    // help asked for as the last item of a line without separator wins over everything else on
+    // the line (C10 judges every position; here the class decides stream and status)
+    // (not where a short name is declared twice: an ambiguous cluster is reported while the line is
+    // being split into items, before any parser - the help flag included - gets to look at it)
+    let twice = {
+        let t = serde_json::to_string(&o.p).unwrap_or_default();
+        t.matches("\"shorts\":[\"f\"]").count() >= 2
+    };
+    if !twice && o.cfg.help_names.is_none() && argv.last().map_or(false, |t| t.0 == b"--help") && !argv.iter().any(|t| t.0 == b"--" || t.0.starts_with(b"--bpaf-complete")) {
+        if !matches!(&raw, Err(bpaf::ParseFailure::Stdout(..))) {
+            let got = match &raw {
+                Ok(_) => "value",
+                Err(bpaf::ParseFailure::Completion(_)) => "completion",
+                Err(bpaf::ParseFailure::Stderr(_)) => "stderr",
+                _ => "stdout",
+            };
+            ctx.violation(viol("help-goes-to-stdout-with-status-0", unit, id, arg0, argv, "class stdout (the help text), exit status 0".into(), format!("class {}", got)));
+            return;
+        }
+        ctx.count("trailing-help-requests-judged");
+    }
     let width = o.cfg.max_width.unwrap_or(100);
     let (exp_status, exp_out, exp_err): (i32, Option<Vec<u8>>, Option<Vec<u8>>) = match &raw {
         Ok(v) => (0, Some(format!("BODY {:?}\n", v).into_bytes()), Some(vec![])),
@@ -435,7 +458,7 @@ impl Check for C11 {
         }
     }
     fn rule(&self) -> String {
-        "corpus = definitions sampled at fixed strides from the conventional family (with/without version), general shapes, adjacent groups, the documented family, plus env-backed, max_width(40), fallback_to_usage + version, custom help names; every definition is compiled into the harness executable and run through the real OptionParser::run() in a child process (execve with the argument vector as bytes, argv[0] set explicitly, empty environment); inputs = every vector of the token tree over the definition's names, words, an empty item, a non-UTF-8 word, --name=\\xff, --help, --version and the completion marker; argv[0] in {plain, absolute path, relative path, name with space, non-UTF-8, empty, names with dots / a version suffix / an extension / a leading dot / a trailing slash / non-ASCII} for vectors of length <= 1; oracle = (1) for the conventional part of the corpus the outcome class prescribed by the reference scanner (value / stderr failure / usage on stdout for a level with fallback_to_usage that got no items); (2) in-process run_inner with the name taken from argv[0]'s file name: value -> stdout 'BODY <debug>' / status 0 / empty stderr; stdout -> text + newline on stdout / 0 / empty stderr, no BODY; stderr -> 'Error: ' + text on stderr / status 1 / empty stdout / non-empty message; completion -> text on stdout / 0; plus, for vectors of length <= 1, the same child built with the dull-color and the bright-color feature (streams are pipes, NO_COLOR unset and set): identical plain bytes; evaluation = one spawned process; plus short names of two and three bytes with clusters of them and a chain of adjacent commands under many; a vector on which run_inner panics has no prediction but the child must still end with status 0 or 1; clusters of the first two ASCII short names (one corpus definition declares a name as a flag and as an argument: ambiguous clusters), items shaped like -<truncated multi-byte sequence>=value".into()
+        "corpus = definitions sampled at fixed strides from the conventional family (with/without version), general shapes, adjacent groups, the documented family, plus env-backed, max_width(40), fallback_to_usage + version, custom help names; every definition is compiled into the harness executable and run through the real OptionParser::run() in a child process (execve with the argument vector as bytes, argv[0] set explicitly, empty environment); inputs = every vector of the token tree over the definition's names, words, an empty item, a non-UTF-8 word, --name=\\xff, --help, --version and the completion marker; argv[0] in {plain, absolute path, relative path, name with space, non-UTF-8, empty, names with dots / a version suffix / an extension / a leading dot / a trailing slash / non-ASCII} for vectors of length <= 1; oracle = (1) for the conventional part of the corpus the outcome class prescribed by the reference scanner (value / stderr failure / usage on stdout for a level with fallback_to_usage that got no items); (2) in-process run_inner with the name taken from argv[0]'s file name: value -> stdout 'BODY <debug>' / status 0 / empty stderr; stdout -> text + newline on stdout / 0 / empty stderr, no BODY; stderr -> 'Error: ' + text on stderr / status 1 / empty stdout / non-empty message; completion -> text on stdout / 0; plus, for vectors of length <= 1, the same child built with the dull-color and the bright-color feature (streams are pipes, NO_COLOR unset and set): identical plain bytes; evaluation = one spawned process; plus short names of two and three bytes with clusters of them and a chain of adjacent commands under many; a vector on which run_inner panics has no prediction but the child must still end with status 0 or 1; clusters of the first two ASCII short names (one corpus definition declares a name as a flag and as an argument: ambiguous clusters), items shaped like -<truncated multi-byte sequence>=value; (3) a line without separator whose last item is --help (default help names) is of class stdout whatever else is wrong on it".into()
     }
     fn bounds(&self, tier: Tier) -> Value {
         json!({"corpus": corpus().len(), "vector_length": tier.pick(2, 3)})
